@@ -26,16 +26,27 @@ structure Good (T : List Nat) (c c' : Ctx) : Prop where
   ne : NonEmpty c.st → NonEmpty c'.st
   frame : ∀ i, i ∉ T → c'.st i = c.st i
   ev : ∃ evs, c'.ev = c.ev ++ evs ∧ (∀ i ∈ evs, i ∈ T) ∧ ∀ i, c'.st i ≠ c.st i → i ∈ evs
+  /-- an event is only recorded when some domain really lost a value -/
+  strict : c'.ev ≠ c.ev → ∃ i, (c'.st i).length < (c.st i).length
 
 theorem Good.refl (T : List Nat) (c : Ctx) : Good T c c :=
-  ⟨fun _ => List.Sublist.refl _, id, fun _ _ => rfl, ⟨[], by simp, by simp, fun i h => absurd rfl h⟩⟩
+  ⟨fun _ => List.Sublist.refl _, id, fun _ _ => rfl, ⟨[], by simp, by simp, fun i h => absurd rfl h⟩,
+   fun h => absurd rfl h⟩
 
 theorem Good.trans {T : List Nat} {c1 c2 c3 : Ctx} (h1 : Good T c1 c2) (h2 : Good T c2 c3) :
     Good T c1 c3 := by
   obtain ⟨e1, a1, b1, d1⟩ := h1.ev
   obtain ⟨e2, a2, b2, d2⟩ := h2.ev
   refine ⟨fun i => (h2.sub i).trans (h1.sub i), fun h => h2.ne (h1.ne h),
-    fun i hi => by rw [h2.frame i hi, h1.frame i hi], ⟨e1 ++ e2, ?_, ?_, ?_⟩⟩
+    fun i hi => by rw [h2.frame i hi, h1.frame i hi], ⟨e1 ++ e2, ?_, ?_, ?_⟩, ?_⟩
+  rotate_right
+  · intro hne
+    by_cases h12 : c2.ev = c1.ev
+    · have : c3.ev ≠ c2.ev := by rw [h12]; exact hne
+      obtain ⟨i, hi⟩ := h2.strict this
+      exact ⟨i, Nat.lt_of_lt_of_le hi (h1.sub i).length_le⟩
+    · obtain ⟨i, hi⟩ := h1.strict h12
+      exact ⟨i, Nat.lt_of_le_of_lt (h2.sub i).length_le hi⟩
   · rw [a2, a1, List.append_assoc]
   · intro i hi
     rcases List.mem_append.1 hi with h | h
@@ -49,7 +60,7 @@ theorem Good.trans {T : List Nat} {c1 c2 c3 : Ctx} (h1 : Good T c1 c2) (h2 : Goo
 theorem Good.mono {T T' : List Nat} {c c' : Ctx} (h : Good T c c') (hs : ∀ i ∈ T, i ∈ T') :
     Good T' c c' := by
   obtain ⟨e, a, b, d⟩ := h.ev
-  exact ⟨h.sub, h.ne, fun i hi => h.frame i (fun hh => hi (hs i hh)), ⟨e, a, fun i hi => hs i (b i hi), d⟩⟩
+  exact ⟨h.sub, h.ne, fun i hi => h.frame i (fun hh => hi (hs i hh)), ⟨e, a, fun i hi => hs i (b i hi), d⟩, h.strict⟩
 
 theorem Good.mem {T : List Nat} {c c' : Ctx} (h : Good T c c') {i : Nat} {w : Int}
     (hw : w ∈ c'.st i) : w ∈ c.st i := (h.sub i).subset hw
@@ -75,9 +86,14 @@ theorem Ctx.trySetMin_good {c c' : Ctx} {i : Nat} {v : Int} {T : List Nat} (hi :
   · split at h
     · split at h
       · cases h
-      · rename_i hne
+      · rename_i hgt hne
         cases h
-        refine ⟨?_, ?_, ?_, ⟨[i], rfl, by simpa using hi, ?_⟩⟩
+        refine ⟨?_, ?_, ?_, ⟨[i], rfl, by simpa using hi, ?_⟩, ?_⟩
+        rotate_right
+        · intro _
+          refine ⟨i, ?_⟩
+          simp only [updS, if_true]
+          exact Dom.removeBelow_length_lt _ _ (by omega) (by intro he; apply hne; rw [he]; rfl)
         · intro j; by_cases hj : j = i
           · subst hj; simp only [updS, if_true]; exact List.filter_sublist
           · simp [updS, hj]
@@ -102,9 +118,14 @@ theorem Ctx.trySetMax_good {c c' : Ctx} {i : Nat} {v : Int} {T : List Nat} (hi :
   · split at h
     · split at h
       · cases h
-      · rename_i hne
+      · rename_i hgt hne
         cases h
-        refine ⟨?_, ?_, ?_, ⟨[i], rfl, by simpa using hi, ?_⟩⟩
+        refine ⟨?_, ?_, ?_, ⟨[i], rfl, by simpa using hi, ?_⟩, ?_⟩
+        rotate_right
+        · intro _
+          refine ⟨i, ?_⟩
+          simp only [updS, if_true]
+          exact Dom.removeAbove_length_lt _ _ (by omega) (by intro he; apply hne; rw [he]; rfl)
         · intro j; by_cases hj : j = i
           · subst hj; simp only [updS, if_true]; exact List.filter_sublist
           · simp [updS, hj]
